@@ -144,6 +144,8 @@ def parse_reset(ctx_text):
 
     for s in stmts:
         where = "reset(): `%s`" % s[:70]
+        if s.startswith("#[cfg(yara_x_verif)]"):
+            continue
         if re.match(r"^let num_rules = self\.compiled_rules\.num_rules\(\);$", s) or re.match(r"^let num_patterns = self\.compiled_rules\.num_patterns\(\);$", s):
             continue
         x = simple(s, where)
@@ -347,11 +349,27 @@ def parse_blocks(blk_text):
         tail += ["S (%s)" % x if not x.startswith("SIf") else x for x in ctx_effects([s], "blocks::Scanner::scan")]
     fin = strip_comments(fn_body(impl, "finish", "blocks::Scanner::finish"))
     fs = top_statements(fin)
-    want = ["if self.needs_reset { self.scan_context_mut().reset(); }", "self.needs_reset = true;", "let ctx = self.scan_context_mut();",
+    # first statement: `if self.needs_reset { <reset, possibly followed by set_pattern_search_done(b)> }`
+    m0 = re.match(r"^if self\.needs_reset \{ (.*) \}$", fs[0]) if fs else None
+    if not m0:
+        raise TranslateError("blocks::Scanner::finish: `if self.needs_reset {..}` not found: " + (fs[0][:200] if fs else ""))
+    then_s = []
+    for t in top_statements(m0.group(1)):
+        if t in ("self.scan_context_mut().reset();", "ctx.reset();"):
+            then_s.append("SCallReset")
+        elif t == "let ctx = self.scan_context_mut();" or t.startswith("#[cfg(yara_x_verif)]"):
+            continue
+        elif re.match(r"^ctx\.set_pattern_search_done\((true|false)\);$", t):
+            then_s.append("SSetGlobalPsd " + re.match(r"^ctx\.set_pattern_search_done\((true|false)\);$", t).group(1))
+        else:
+            raise TranslateError("blocks::Scanner::finish: statement not understood in the needs_reset branch: " + t[:160])
+    if "SCallReset" not in then_s:
+        raise TranslateError("blocks::Scanner::finish: the needs_reset branch no longer resets")
+    want = ["self.needs_reset = true;", "let ctx = self.scan_context_mut();",
             "ctx.eval_conditions()?;", "ctx.scan_state = ScanState::Finished(DataSnippets::MultiBlock( mem::take(&mut self.snippets), ));", "Ok(ScanResults::new(ctx))"]
-    if fs != want:
+    if [x for x in fs[1:] if not x.startswith("#[cfg(yara_x_verif)]")] != want:
         raise TranslateError("blocks::Scanner::finish changed: " + " | ".join(fs)[:400])
-    fin_s = ["SIfNeedsReset [SCallReset] []", "S (SAssign blk_needs_reset ITrue)", "S SEval", "S STakeSnippets", "S (SSetScanState 4)"]
+    fin_s = ["SIfNeedsReset [%s] []" % "; ".join(then_s), "S (SAssign blk_needs_reset ITrue)", "S SEval", "S STakeSnippets", "S (SSetScanState 4)"]
     m = re.search(r"impl<'r> From<crate::scanner::Scanner<'r>> for Scanner<'r> \{", impl)
     if not m:
         raise TranslateError("From<Scanner> for blocks::Scanner not found")
